@@ -22,6 +22,7 @@ RULE = ('fault-free children; per spec a sequential baseline and a -j N run (N i
         'tapes appear in the parent\'s output as contiguous blocks in baseline layer order; alive <= '
         'N at every spawn; barrier reached (progress). distinct = '
         'digest incl. completion order; non-trivial = two children overlapped')
+RULE += (' ' + "Later additions: blocks must be contiguous in the RAW output; >1000-line blocks; a parent stdout whose flush yields/sleeps; CPU-count seam; the runner script started through a symbolic link; one seed in four runs the parent's threads under line-level pre-emption (every line of runner.py a scheduling point).")
 KEEPALIVE_RE = re.compile(r'\[Parallel tests running in [^\n]*:\n  .*?\]\n', re.S)
 DOTS_RE = re.compile(r'^\.+\n$')
 
